@@ -99,6 +99,26 @@ func checkChain(c *report.Ctx, f *ssa.Function, what string, steps []step, succe
 		}
 		return false
 	}
+	resNonNil := func(i int, b *ssa.BasicBlock) bool {
+		for _, s := range sites[i] {
+			v, ok := s.(ssa.Value)
+			if !ok {
+				continue
+			}
+			if facts.Holds(b, func(ft an.Fact) bool {
+				return an.CmpNil(ft, false, func(x ssa.Value) bool {
+					x = an.Strip(x, false)
+					if ex, ok := x.(*ssa.Extract); ok && ex.Tuple == v {
+						return true
+					}
+					return x == v
+				})
+			}) {
+				return true
+			}
+		}
+		return false
+	}
 	// adjacent mandatory pairs
 	prev := -1
 	for j, sj := range steps {
@@ -146,7 +166,17 @@ func checkChain(c *report.Ctx, f *ssa.Function, what string, steps []step, succe
 		}
 	}
 	for i, e := range an.Exits(f) {
-		if !success(e) {
+		isSucc := success(e)
+		if !isSucc {
+			// `return step()` - the exit hands on the result of a step that reports errors: it is the
+			// successful exit exactly when that step succeeded (same as `if err := step(); err != nil { return err }; return nil`)
+			for k, s := range steps {
+				if s.nilRes && lastStepReturned(e, sites[k]) && !resNonNil(k, e.Ret.Block()) {
+					isSucc = true
+				}
+			}
+		}
+		if !isSucc {
 			continue
 		}
 		nsucc++
